@@ -1252,7 +1252,10 @@ func suiteC15(s *Shard, n int) {
 				smp = append(smp, image.Pt((r.Intn(13)-4)*[]int{8, 4, 2, 1}[r.Intn(4)], 0))
 			}
 		}
-		s.emitRen(rect, smp, cs)
+		obs, _ := s.emitRen(rect, smp, cs)
+		if k := strings.Index(obs, " G"); k >= 0 && k+8 < len(obs) {
+			s.Sig("grad:" + obs[k+1:k+7] + fmt.Sprint(grid, strings.Contains(obs, "0000.0000.0000.0000")))
+		}
 		line := RenCase(rect, smp, cs)
 		for _, f := range monitorGradient(line, rect, smp, cs) {
 			s.Fail(f.Clause, f.Case, f.Detail)
